@@ -178,6 +178,7 @@ type State struct {
 	allocLimit      int
 	concreteClock   bool
 	noAutoFire      bool
+	crcMismatch     bool
 	appendHook      func(ex *Exec, st *State, newCap int)
 }
 
